@@ -405,6 +405,22 @@ Proof.
   intros [_ P]. unfold avail. rewrite <- P. rewrite !app_length. lia.
 Qed.
 
+(* the peer's answer to the next line neither completes a line nor closes the socket (or there is none) *)
+Definition silent (fu : list step) : Prop :=
+  match fu with [] => True | st :: _ => closes st = false /\ ~ has_crlf (concat (chunks st)) end.
+
+Lemma sock_write_line s b s1 :
+  sock_write s b true = Some s1 ->
+  future s1 = tl (future s)
+  /\ match future s with [] => True | st :: _ => rq s1 = rq s ++ step_pieces st /\ closed s1 = closes st end.
+Proof.
+  unfold sock_write. destruct (closed s); [discriminate|]. destruct (future s) as [|st fu]; intros H; inversion H; subst; cbn; auto.
+Qed.
+Lemma sock_write_noline s b s1 : sock_write s b false = Some s1 -> future s1 = future s.
+Proof. unfold sock_write. destruct (closed s); [discriminate|]. intros H; inversion H; subst; reflexivity. Qed.
+Lemma has_crlf_app_r a b : has_crlf b -> has_crlf (a ++ b).
+Proof. intros (x & y & ->). exists (a ++ x), y. now rewrite <- app_assoc. Qed.
+
 Lemma ext_reads s1 s2 ps tail :
   rq s1 = ps ++ rq s2 -> future s2 = future s1 -> log s2 = log s1 ++ map R ps ++ tail -> reads tail = [] ->
   ext s1 s2 (map R ps ++ tail).
@@ -422,35 +438,41 @@ Lemma exchange_spec fuel word msg s :
       closed s = false /\
       match read_message fuel s1 [] with
       | (r, s2) => exists evs, ext s s2 (W (msg ++ CRLF) :: evs) /\ reply word evs (classify word r)
-                               /\ (classify word r = ABlocked ->
-                                     rq s2 = [] /\ closed s1 = false /\ evs = map R (rq s1))
+                               /\ future s2 = tl (future s)
+                               /\ (classify word r = ABlocked -> silent (future s))
       end
   end.
 Proof.
   intros Hf. unfold write_message. destruct (sock_write s (msg ++ CRLF) true) as [s1|] eqn:Ew.
-  - apply sock_write_some in Ew. destruct Ew as (Hc & Hext & _). split; [exact Hc|].
+  - pose proof (sock_write_line _ _ _ Ew) as [Hfut Hst].
+    apply sock_write_some in Ew. destruct Ew as (Hc & Hext & _). split; [exact Hc|].
     destruct (ext_avail _ _ _ Hext) as [_ Hrq].
     pose proof (read_message_spec fuel s1 ltac:(lia)) as H.
     destruct (read_message fuel s1 []) as [r s2]. destruct H as (ps & Erq & Ec & Efu & Hr).
     destruct r as [line| | | |]; cbn [classify].
-    + destruct Hr as (El & dropped & Hfl & Hu & Hstop). exists (map R ps). split; [|split].
+    + destruct Hr as (El & dropped & Hfl & Hu & Hstop). exists (map R ps). split; [|split; [|split]].
       * apply (ext_trans s s1 s2 [W (msg ++ CRLF)] (map R ps) Hext).
         rewrite <- (app_nil_r (map R ps)). apply ext_reads; auto. now rewrite app_nil_r.
       * destruct (starts_with word line) eqn:Es; econstructor; eauto.
+      * congruence.
       * destruct (starts_with word line); discriminate.
     + destruct Hr as [(El & line & dropped & Hfl & Hu)|(El & Hn & Hq & Hcl)].
-      * exists (map R ps). split; [|split; [|discriminate]].
+      * exists (map R ps). split; [|split; [|split; [congruence|discriminate]]].
         -- apply (ext_trans s s1 s2 [W (msg ++ CRLF)] (map R ps) Hext).
            rewrite <- (app_nil_r (map R ps)). apply ext_reads; auto. now rewrite app_nil_r.
         -- econstructor; eauto.
-      * exists (map R ps ++ [E]). split; [|split; [|discriminate]].
+      * exists (map R ps ++ [E]). split; [|split; [|split; [congruence|discriminate]]].
         -- apply (ext_trans s s1 s2 [W (msg ++ CRLF)] (map R ps ++ [E]) Hext). apply ext_reads; auto.
         -- now constructor.
-    + destruct Hr as (El & Hn & Hq & Hcl). exists (map R ps). split; [|split].
+    + destruct Hr as (El & Hn & Hq & Hcl). exists (map R ps). split; [|split; [|split]].
       * apply (ext_trans s s1 s2 [W (msg ++ CRLF)] (map R ps) Hext).
         rewrite <- (app_nil_r (map R ps)). apply ext_reads; auto. now rewrite app_nil_r.
       * now constructor.
-      * intros _. rewrite Hq, app_nil_r in Erq. subst ps. auto.
+      * congruence.
+      * intros _. rewrite Hq, app_nil_r in Erq. subst ps. unfold silent.
+        destruct (future s) as [|st fu]; [exact I|]. destruct Hst as [Hrq1 Hcl1]. split; [congruence|].
+        intros Hh. apply Hn. rewrite Hrq1, concat_app. apply has_crlf_app_r.
+        unfold step_pieces. now rewrite concat_flat_map_pieces.
     + destruct Hr.
     + destruct Hr.
   - now apply sock_write_none in Ew.
@@ -469,22 +491,29 @@ Proof.
   - left. apply sock_write_none in Ew. auto.
 Qed.
 
+(* the script leaves the client waiting: the answer to AUTH, or (when it is reached) to NEGOTIATE_UNIX_FD,
+   is missing or is neither a complete line nor a close *)
+Definition stalls (with_fd : bool) (fu : list step) : Prop :=
+  silent fu \/ (with_fd = true /\ silent (tl fu)).
+
 (* every run of the model is a conforming run, and the pieces are accounted for *)
 Theorem connect_on_conforms fuel uid hex with_fd s0 :
   get_uid_as_hex uid = Ok hex -> (avail s0 < fuel)%nat ->
   match connect_on fuel uid with_fd s0 with
   | (res, s) => exists evs, ext s0 s evs /\ conforming hex with_fd evs res
+                            /\ (res = CBlocked -> stalls with_fd (future s0))
   end.
 Proof.
   intros Hhex Hf. unfold connect_on, do_auth.
   destruct (sock_write s0 NUL false) as [s1|] eqn:Ew0.
-  2:{ cbn [lift]. exists []. split; [apply ext_refl|constructor]. }
+  2:{ cbn [lift]. exists []. split; [apply ext_refl|split; [constructor|discriminate]]. }
+  pose proof (sock_write_noline _ _ _ Ew0) as Hfut1.
   apply sock_write_some in Ew0. destruct Ew0 as (Hc0 & Hext0 & Hc1). specialize (Hc1 eq_refl).
   rewrite Hhex. destruct (ext_avail _ _ _ Hext0) as [Hav1 _].
   pose proof (exchange_spec fuel OK_ (AUTH_EXTERNAL ++ hex) s1 ltac:(lia)) as H1.
   destruct (write_message (AUTH_EXTERNAL ++ hex) s1) as [s2|]; [|congruence].
   destruct H1 as [_ H1]. destruct (read_message fuel s2 []) as [r1 s3].
-  destruct H1 as (evs1 & Hext1 & Hrep1 & _).
+  destruct H1 as (evs1 & Hext1 & Hrep1 & Hfut3 & Hsil1). rewrite Hfut1 in Hfut3, Hsil1.
   replace ((AUTH_EXTERNAL ++ hex) ++ CRLF) with (AUTH_LINE hex) in Hext1 by (unfold AUTH_LINE; now rewrite app_assoc).
   pose proof (ext_trans _ _ _ _ _ Hext0 Hext1) as Hext03. cbn [app] in Hext03.
   destruct (reply_total _ _ _ Hrep1) as [Hnp1 Hnf1].
@@ -495,30 +524,33 @@ Proof.
     + unfold negotiate_unix_fds.
       pose proof (exchange_spec fuel AGREE_UNIX_FD NEGOTIATE_UNIX_FD s3 ltac:(lia)) as H2.
       destruct (write_message NEGOTIATE_UNIX_FD s3) as [s4|].
-      2:{ cbn [lift]. eexists. split; [exact Hext03|]. now apply RunNegFailed. }
+      2:{ cbn [lift]. eexists. split; [exact Hext03|split; [now apply RunNegFailed|discriminate]]. }
       destruct H2 as [_ H2]. destruct (read_message fuel s4 []) as [r2 s5].
-      destruct H2 as (evs2 & Hext2 & Hrep2 & _). fold NEG_LINE in Hext2.
+      destruct H2 as (evs2 & Hext2 & Hrep2 & _ & Hsil2). rewrite Hfut3 in Hsil2. fold NEG_LINE in Hext2.
       pose proof (ext_trans _ _ _ _ _ Hext03 Hext2) as Hext05. cbn [app] in Hext05.
       destruct (reply_total _ _ _ Hrep2) as [Hnp2 Hnf2].
       destruct (classify AGREE_UNIX_FD r2) eqn:Ecl2; try congruence.
       * pose proof (finish_spec s5) as Hfin. destruct (finish s5) as [res s6].
         destruct Hfin as [(-> & -> & _)|(-> & HextB)].
-        -- eexists. split; [exact Hext05|]. now apply RunFdBeginFailed.
+        -- eexists. split; [exact Hext05|split; [now apply RunFdBeginFailed|discriminate]].
         -- pose proof (ext_trans _ _ _ _ _ Hext05 HextB) as Hext06. cbn [app] in Hext06.
            rewrite <- app_assoc in Hext06. cbn [app] in Hext06.
-           eexists. split; [exact Hext06|]. cbn [app]. now apply RunFdOk.
-      * eexists. split; [exact Hext05|].
+           eexists. split; [exact Hext06|split; [now apply RunFdOk|discriminate]].
+      * eexists. split; [exact Hext05|split; [|discriminate]].
         apply (RunFdRefused hex true evs1 evs2 ARejected); auto. discriminate.
-      * cbn [lift]. eexists. split; [exact Hext05|].
+      * cbn [lift]. eexists. split; [exact Hext05|split; [|discriminate]].
         apply (RunFdRefused hex true evs1 evs2 AErr); auto. discriminate.
-      * cbn [lift]. eexists. split; [exact Hext05|].
-        apply (RunFdRefused hex true evs1 evs2 ABlocked); auto. discriminate.
+      * cbn [lift]. eexists. split; [exact Hext05|split].
+        -- apply (RunFdRefused hex true evs1 evs2 ABlocked); auto. discriminate.
+        -- intros _. right. auto.
     + pose proof (finish_spec s3) as Hfin. destruct (finish s3) as [res s4].
       destruct Hfin as [(-> & -> & _)|(-> & HextB)].
-      * eexists. split; [exact Hext03|]. now apply RunBeginFailed.
+      * eexists. split; [exact Hext03|split; [now apply RunBeginFailed|discriminate]].
       * pose proof (ext_trans _ _ _ _ _ Hext03 HextB) as Hext04. cbn [app] in Hext04.
-        eexists. split; [exact Hext04|]. now apply RunOk.
-  - eexists. split; [exact Hext03|]. apply (RunAuthRefused hex with_fd evs1 ARejected); auto. discriminate.
-  - cbn [lift]. eexists. split; [exact Hext03|]. apply (RunAuthRefused hex with_fd evs1 AErr); auto. discriminate.
-  - cbn [lift]. eexists. split; [exact Hext03|]. apply (RunAuthRefused hex with_fd evs1 ABlocked); auto. discriminate.
+        eexists. split; [exact Hext04|split; [now apply RunOk|discriminate]].
+  - eexists. split; [exact Hext03|split; [|discriminate]]. apply (RunAuthRefused hex with_fd evs1 ARejected); auto. discriminate.
+  - cbn [lift]. eexists. split; [exact Hext03|split; [|discriminate]]. apply (RunAuthRefused hex with_fd evs1 AErr); auto. discriminate.
+  - cbn [lift]. eexists. split; [exact Hext03|split].
+    + apply (RunAuthRefused hex with_fd evs1 ABlocked); auto. discriminate.
+    + intros _. left. auto.
 Qed.
